@@ -127,7 +127,7 @@ func unescape3(s string) string {
 	return strings.ReplaceAll(s, "&amp;", "&")
 }
 
-var c10Pieces = []string{"<", ">", "&", ";", "#", "\"", "'", "\\x", "/", "=", "a", "1", " ", "\n", "é", "日", "&amp;", "&lt;", "&#34;", "&#39;", "&quot;", "&#x3C;", "&nosuch;", "<b>", "</b>", "&&", "\\\"", "\\'", "\xe9", "\xff\xfe", "\xc3", "\xe6\x97"}
+var c10Pieces = []string{"<", ">", "&", ";", "#", "\"", "'", "\\x", "/", "=", "a", "1", " ", "\n", "é", "日", "&amp;", "&lt;", "&#34;", "&#39;", "&quot;", "&#x3C;", "&nosuch;", "<b>", "</b>", "&&", "\\\"", "\\'", "\xe9", "\xff\xfe", "\xc3", "\xe6\x97", "\r\n", "\r", "\t", "%", "%s"}
 
 // c10Contexts builds the template for a literal in each context.
 func c10Contexts(lit string) []escCase {
